@@ -104,7 +104,7 @@ func c15(r *rep.Run) {
 		}
 	}
 	// list literals of every shape next to every kind of neighbour
-	for _, l := range []*term.Term{term.Const([]int64{}), term.Const([]int64{-1}), term.Const([]int64{-1, -2}), term.Const([]int64{3, -2, 7}), term.Const([]string{"s", "t u"}), term.Const([]string{"-1", "a"})} {
+	for _, l := range []*term.Term{term.Const([]int64{}), term.Const([]int64{-1}), term.Const([]int64{-1, -2}), term.Const([]int64{3, -2, 7}), term.Const([]string{"s", "t u"}), term.Const([]string{"-1", "a"}), term.Const([]string{",", ";", "|"}), term.Const([]string{"(", "]", " ", ""}), term.Const([]string{"[1 2]", "f(a)", "a , b"})} {
 		a := term.Var("a", X)
 		for _, t := range []*term.Term{
 			term.Op("f", X, l), term.Op("g", X, a, l), term.Op("g", X, l, term.Const(int64(-1))), term.Op("=", X, a, l), term.Op("-", X, a, term.Op("g", X, term.Const(int64(-1)), l)),
